@@ -52,6 +52,9 @@ pub enum Op {
     Query { t: usize, h: usize, q: Q },
     SpawnThread { t: usize, h: usize, ids: Vec<u32> },
     SpawnThreads { t: usize, h: usize, ids: Vec<u32> },
+    /// Fault: the kernel refuses this pin (`sched_setaffinity` fails). Whether the library panics
+    /// or not, the thread's pin state and every later answer must be as if the call never happened.
+    PinFails { t: usize, h: usize, ids: Vec<u32>, eperm: bool },
 }
 
 #[derive(Clone, Debug, Serialize, Deserialize)]
@@ -199,7 +202,7 @@ impl Scenario for PinScenario {
         let mut last = (0_usize, 0_usize);
         for _ in 0..n_ops {
             let (t, h) = if rng.chance(1, 2) { last } else { (rng.below_usize(threads), rng.below_usize(n_hw)) };
-            let op = match rng.weighted(&[35, 45, 10, 10]) {
+            let op = match rng.weighted(&[35, 45, 10, 10, if faulty && !fake { 8 } else { 0 }]) {
                 0 => {
                     last = (t, h);
                     Op::Pin { t, h, ids: gen_set(rng, &hws[h]), via_filter: rng.chance(1, 3) }
@@ -210,7 +213,8 @@ impl Scenario for PinScenario {
                     q: *rng.pick(&[Q::ProcPinned, Q::RegionPinned, Q::CurProc, Q::CurRegion, Q::ThreadProcs, Q::Available]),
                 },
                 2 => Op::SpawnThread { t, h, ids: gen_set(rng, &hws[h]) },
-                _ => Op::SpawnThreads { t, h, ids: gen_set(rng, &hws[h]) },
+                3 => Op::SpawnThreads { t, h, ids: gen_set(rng, &hws[h]) },
+                _ => Op::PinFails { t, h, ids: gen_set(rng, &hws[h]), eperm: rng.bool() },
             };
             ops.push(op);
         }
@@ -244,7 +248,7 @@ impl Scenario for PinScenario {
             c.hws.remove(0);
             for op in &mut c.ops {
                 match op {
-                    Op::Pin { h, .. } | Op::Query { h, .. } | Op::SpawnThread { h, .. } | Op::SpawnThreads { h, .. } => {
+                    Op::Pin { h, .. } | Op::Query { h, .. } | Op::SpawnThread { h, .. } | Op::SpawnThreads { h, .. } | Op::PinFails { h, .. } => {
                         *h = if *h == 0 { usize::MAX } else { *h - 1 };
                     }
                 }
@@ -253,7 +257,7 @@ impl Scenario for PinScenario {
         }
         for (i, op) in self.ops.iter().enumerate() {
             let ids = match op {
-                Op::Pin { ids, .. } | Op::SpawnThread { ids, .. } | Op::SpawnThreads { ids, .. } => ids,
+                Op::Pin { ids, .. } | Op::SpawnThread { ids, .. } | Op::SpawnThreads { ids, .. } | Op::PinFails { ids, .. } => ids,
                 Op::Query { .. } => continue,
             };
             if ids.len() > 1 {
@@ -263,7 +267,7 @@ impl Scenario for PinScenario {
                     }
                     let mut c = self.clone();
                     match &mut c.ops[i] {
-                        Op::Pin { ids, .. } | Op::SpawnThread { ids, .. } | Op::SpawnThreads { ids, .. } => *ids = smaller,
+                        Op::Pin { ids, .. } | Op::SpawnThread { ids, .. } | Op::SpawnThreads { ids, .. } | Op::PinFails { ids, .. } => *ids = smaller,
                         Op::Query { .. } => {}
                     }
                     out.push(c);
@@ -316,6 +320,7 @@ impl Scenario for PinScenario {
                 Op::Query { .. } => 3,
                 Op::SpawnThread { ids, .. } => 6 + ids.len(),
                 Op::SpawnThreads { ids, .. } => 6 + ids.len(),
+                Op::PinFails { ids, .. } => 5 + ids.len(),
             })
             .sum();
         let hws: usize = self
@@ -810,7 +815,7 @@ impl Runner {
         let mut nontrivial = false;
         for (i, op) in s.ops.iter().enumerate() {
             let (t, h) = match op {
-                Op::Pin { t, h, .. } | Op::Query { t, h, .. } | Op::SpawnThread { t, h, .. } | Op::SpawnThreads { t, h, .. } => (*t, *h),
+                Op::Pin { t, h, .. } | Op::Query { t, h, .. } | Op::SpawnThread { t, h, .. } | Op::SpawnThreads { t, h, .. } | Op::PinFails { t, h, .. } => (*t, *h),
             };
             if t >= self.tids.len() || h >= self.hws.len() {
                 continue; // dangling after shrinking
@@ -852,6 +857,38 @@ impl Runner {
                     nontrivial |= ids.len() >= 2 || ids.iter().any(|x| *x >= 64);
                     self.probe_set(ctx, h, &ids);
                     self.sweep(&what, Some((t, &own)), true)?;
+                }
+                Op::PinFails { ids, eperm, .. } => {
+                    let ids = valid(ids);
+                    let Some(kernel) = u.kernel.clone() else { continue };
+                    if ids.is_empty() {
+                        continue;
+                    }
+                    let errno = if *eperm { libc::EPERM } else { libc::EINVAL };
+                    let what = format!("op {i}: thread {t} pins to {ids:?} on instance {h}, sched_setaffinity fails with errno {errno}");
+                    kernel.fail_next_setaffinity(self.tids[t], errno);
+                    let affinity_before = kernel.affinity_of(self.tids[t]);
+                    let (u2, ids2) = (u.clone(), ids.clone());
+                    let all = self.hws.clone();
+                    let (panicked, own) = exec(&self.coord, t, move || {
+                        let r = std::panic::catch_unwind(std::panic::AssertUnwindSafe(|| {
+                            build_set(&u2, &ids2, false).pin_current_thread_to();
+                        }));
+                        (r.is_err(), flags_of(&all))
+                    })?;
+                    ctx.fault("setaffinity-fails");
+                    ctx.probe(if panicked { "failed-pin-panicked" } else { "failed-pin-returned" });
+                    ctx.event_str(&format!("{what} -> {}", if panicked { "panicked" } else { "returned" }));
+                    // The refused call changed nothing in the kernel ...
+                    check!(
+                        kernel.affinity_of(self.tids[t]) == affinity_before,
+                        "failed-pin-changed-affinity",
+                        "{what}: the kernel affinity changed although the call was refused"
+                    );
+                    // ... so the library's view of this thread (and of every other) must be what it
+                    // was: the model's last successful pin stays, and the sweep compares every flag.
+                    nontrivial = true;
+                    self.sweep(&what, Some((t, &own)), false)?;
                 }
                 Op::Query { q, .. } => {
                     let u2 = u.clone();
